@@ -23,7 +23,16 @@ type Program struct {
 	Overlay  map[string]string // virtual path -> real path
 }
 
-const RepoDir = "/repo"
+// RepoDir is the tree the checks run against: /repo. (VERIF_REPO may point the
+// seed-testing tools at a scratch worktree; registered commands never set it.)
+var RepoDir = repoDir()
+
+func repoDir() string {
+	if d := os.Getenv("VERIF_REPO"); d != "" {
+		return d
+	}
+	return "/repo"
+}
 const ModPath = "github.com/mandykoh/prism"
 
 // LoadProgram loads every package of /repo with the harness overlays from
@@ -149,6 +158,9 @@ type Harness struct {
 	MaxPaths  int
 	Solver    string
 	TimeoutMs int
+	// WallBudgetMs bounds the wall time of the whole run (default 30 min): when it is
+	// exceeded exploration stops and the run reports an exhausted bound (inconclusive)
+	WallBudgetMs int
 	MathHook  func(e *Exec, name string, args []Value) (Value, bool)
 	// OnPathEnd is called after each completed path (for harness-specific
 	// post-conditions over engine state such as fmt call logs).
@@ -272,6 +284,11 @@ func (p *Program) Explore(h *Harness) *Report {
 	if to == 0 {
 		to = 60000
 	}
+	wall := h.WallBudgetMs
+	if wall == 0 {
+		wall = 1800000
+	}
+	deadline := time.Now().Add(time.Duration(wall) * time.Millisecond)
 	maxPaths := h.MaxPaths
 	if maxPaths == 0 {
 		maxPaths = 20000
@@ -294,7 +311,14 @@ func (p *Program) Explore(h *Harness) *Report {
 	var worker func()
 	worker = func() {
 		defer wg.Done()
-		s, err := NewSolver(solverKind, to)
+		inc := to
+		if h.Cfg.PortfolioFallback && inc > 10000 {
+			inc = 10000
+		}
+		s, err := NewSolver(solverKind, inc)
+		if err == nil {
+			s.LongMs = to
+		}
 		if err != nil {
 			mu.Lock()
 			rep.EngineErrors = append(rep.EngineErrors, err.Error())
@@ -324,6 +348,13 @@ func (p *Program) Explore(h *Harness) *Report {
 				mu.Unlock()
 				return
 			}
+			if time.Now().After(deadline) {
+				rep.BoundsHit = append(rep.BoundsHit, fmt.Sprintf("wall budget %d s exhausted with %d prefixes pending", wall/1000, len(work)))
+				stop = true
+				cond.Broadcast()
+				mu.Unlock()
+				continue
+			}
 			if rep.Paths+active >= maxPaths {
 				rep.PathsTruncated = true
 				rep.BoundsHit = append(rep.BoundsHit, fmt.Sprintf("path budget %d exhausted with %d prefixes pending", maxPaths, len(work)))
@@ -347,6 +378,7 @@ func (p *Program) Explore(h *Harness) *Report {
 			e := p.newExec(h, b, s)
 			e.prefix = prefix
 			e.tracker = tracker
+			e.deadline = deadline
 			b.fresh = 0
 			outcome := e.runPath(sp, fn, h)
 			var sample *PathSample
@@ -438,6 +470,18 @@ func (p *Program) Explore(h *Harness) *Report {
 			}
 			if len(rep.EngineErrors) > 20 {
 				stop = true
+			}
+			// enough evidence: a run that has produced several violations with models is
+			// not explored further (the verdict is already "violated")
+			budgetViol := false
+			for _, v := range e.violations {
+				if v.HasModel && (v.Kind == "steps" || v.Kind == "alloc") {
+					budgetViol = true
+				}
+			}
+			if (len(rep.Violations) >= 6 || budgetViol) && !stop {
+				stop = true
+				rep.Notes = append(rep.Notes, "exploration stopped: the verdict of this run is already 'violated' (budget violation, or 6 violations with models)")
 			}
 			cond.Broadcast()
 			mu.Unlock()
